@@ -38,10 +38,7 @@ impl Cx for CArc<c_void> {
     const HAS: bool = true;
 }
 
-type BoxI = CBox<'static, c_void>;
-type MutI = &'static mut c_void;
-type RefI = &'static c_void;
-type ArcI = CArcSome<c_void>;
+use objfam::ctor::{self, ArcI, BoxI, EnvPay, Made, MutI, ObjUnion, RefI};
 
 // ---------------------------------------------------------------------------------------------
 // capability interface
@@ -553,36 +550,102 @@ struct Slot {
     obj: Box<dyn Caps>,
 }
 
-enum EnvPay {
-    P0(Box<P0>),
-    P1(Box<P1>),
-    P2(Box<P2>),
-    P3(Box<P3>),
-    P4(Box<P4>),
-    P5(Box<P5>),
+/// Where payloads and objects are created: in this module, or in a separately compiled plugin
+/// (C05).  Payload bookkeeping (ids, destructor counts) lives in the module that runs the payload
+/// code, so it is read through the same interface.
+pub enum Backend {
+    Local,
+    Plugin(PluginFns),
 }
-impl EnvPay {
-    fn core(&self) -> &Core {
-        match self {
-            EnvPay::P0(p) => &p.0,
-            EnvPay::P1(p) => &p.0,
-            EnvPay::P2(p) => &p.0,
-            EnvPay::P3(p) => &p.0,
-            EnvPay::P4(p) => &p.0,
-            EnvPay::P5(p) => &p.0,
+pub struct PluginFns {
+    _lib: libloading::Library,
+    mk_owned: unsafe extern "C" fn(u32, u32, u32, u32, usize, i64, bool, CArc<c_void>) -> Made,
+    mk_borrowed: unsafe extern "C" fn(u32, u32, u32, *mut EnvPay, bool, CArc<c_void>) -> ObjUnion,
+    env_new: unsafe extern "C" fn(u32, usize, i64) -> *mut EnvPay,
+    env_core: unsafe extern "C" fn(*mut EnvPay) -> *const Core,
+    env_drop: unsafe extern "C" fn(*mut EnvPay),
+    pay_drops: unsafe extern "C" fn(usize) -> u32,
+    pay_created: unsafe extern "C" fn(usize) -> u32,
+    pay_next_id: unsafe extern "C" fn() -> usize,
+    pay_reset: unsafe extern "C" fn(),
+    pay_uad: unsafe extern "C" fn() -> usize,
+    ledger_live: unsafe extern "C" fn() -> usize,
+    ledger_anoms: unsafe extern "C" fn() -> usize,
+    pub build_info: String,
+}
+impl PluginFns {
+    pub fn load(path: &str) -> Self {
+        unsafe {
+            let lib = libloading::Library::new(path).unwrap_or_else(|e| {
+                eprintln!("TOOL-ERROR cannot load plugin {}: {}", path, e);
+                std::process::exit(2)
+            });
+            macro_rules! sym { ($n:expr) => { *lib.get($n).unwrap_or_else(|e| { eprintln!("TOOL-ERROR plugin symbol: {}", e); std::process::exit(2) }) }; }
+            let info: unsafe extern "C" fn() -> *const std::os::raw::c_char = sym!(b"xp_build_info");
+            let build_info = std::ffi::CStr::from_ptr(info()).to_string_lossy().into_owned();
+            PluginFns {
+                mk_owned: sym!(b"xp_mk_owned"), mk_borrowed: sym!(b"xp_mk_borrowed"), env_new: sym!(b"xp_env_new"),
+                env_core: sym!(b"xp_env_core"), env_drop: sym!(b"xp_env_drop"), pay_drops: sym!(b"xp_pay_drops"),
+                pay_created: sym!(b"xp_pay_created"), pay_next_id: sym!(b"xp_pay_next_id"), pay_reset: sym!(b"xp_pay_reset"),
+                pay_uad: sym!(b"xp_pay_uad"), ledger_live: sym!(b"xp_ledger_live"), ledger_anoms: sym!(b"xp_ledger_anoms"),
+                build_info, _lib: lib,
+            }
         }
     }
+}
+impl Backend {
+    fn next_id(&self) -> usize { match self { Backend::Local => payload::next_id(), Backend::Plugin(p) => unsafe { (p.pay_next_id)() } } }
+    fn drops(&self, i: usize) -> u32 { match self { Backend::Local => payload::drops(i), Backend::Plugin(p) => unsafe { (p.pay_drops)(i) } } }
+    fn created(&self, i: usize) -> u32 { match self { Backend::Local => payload::created(i), Backend::Plugin(p) => unsafe { (p.pay_created)(i) } } }
+    fn reset(&self) { match self { Backend::Local => payload::reset_ids(), Backend::Plugin(p) => unsafe { (p.pay_reset)() } } }
+    fn uad(&self) -> usize { match self { Backend::Local => payload::use_after_drop(), Backend::Plugin(p) => unsafe { (p.pay_uad)() } } }
+    fn foreign_live(&self) -> usize { match self { Backend::Local => 0, Backend::Plugin(p) => unsafe { (p.ledger_live)() } } }
+    fn foreign_anoms(&self) -> usize { match self { Backend::Local => 0, Backend::Plugin(p) => unsafe { (p.ledger_anoms)() } } }
+    fn drop_table(&self) -> Vec<(usize, u32)> {
+        (1..self.next_id()).filter(|&i| self.created(i) > 0).map(|i| (i, self.drops(i))).collect()
+    }
+}
+
+/// environment payload handle: owned here, or living in the plugin
+enum EnvH {
+    Local(EnvPay),
+    Foreign(*mut EnvPay),
+}
+
+/// wrap whatever a constructor produced into the adapter's capability interface (host-side glue)
+fn wrap(u: ObjUnion) -> Option<Box<dyn Caps>> {
+    Some(match u {
+        ObjUnion::None => return None,
+        ObjUnion::RaBoxN(o) => Box::new(HRa(o)), ObjUnion::RaBoxA(o) => Box::new(HRa(o)),
+        ObjUnion::RaMutN(o) => Box::new(HRa(o)), ObjUnion::RaMutA(o) => Box::new(HRa(o)),
+        ObjUnion::RaRefN(o) => Box::new(HRa(o)), ObjUnion::RaRefA(o) => Box::new(HRa(o)),
+        ObjUnion::RaArcN(o) => Box::new(HRa(o)), ObjUnion::RaArcA(o) => Box::new(HRa(o)),
+        ObjUnion::RbBoxN(o) => Box::new(HRb(o)), ObjUnion::RbBoxA(o) => Box::new(HRb(o)),
+        ObjUnion::RbMutN(o) => Box::new(HRb(o)), ObjUnion::RbMutA(o) => Box::new(HRb(o)),
+        ObjUnion::RbRefN(o) => Box::new(HRb(o)), ObjUnion::RbRefA(o) => Box::new(HRb(o)),
+        ObjUnion::MaBoxN(o) => Box::new(HMa(o)), ObjUnion::MaBoxA(o) => Box::new(HMa(o)),
+        ObjUnion::MaMutN(o) => Box::new(HMa(o)), ObjUnion::MaMutA(o) => Box::new(HMa(o)),
+        ObjUnion::ObBoxN(o) => Box::new(HOb(o)), ObjUnion::ObBoxA(o) => Box::new(HObArc(o)),
+        ObjUnion::KidBoxN(o) => Box::new(HKid(o)), ObjUnion::KidBoxA(o) => Box::new(HKid(o)),
+        ObjUnion::KidMutN(o) => Box::new(HKid(o)), ObjUnion::KidMutA(o) => Box::new(HKid(o)),
+        ObjUnion::CloneBoxN(o) => Box::new(HClone(o)), ObjUnion::CloneBoxA(o) => Box::new(HClone(o)),
+        ObjUnion::GBoxN(o) => Box::new(HGroup::<BoxI, NoContext>(o)), ObjUnion::GBoxA(o) => Box::new(HGroup::<BoxI, CArc<c_void>>(o)),
+        ObjUnion::GMutN(o) => Box::new(HGroup::<MutI, NoContext>(o)), ObjUnion::GMutA(o) => Box::new(HGroup::<MutI, CArc<c_void>>(o)),
+        ObjUnion::GRefN(o) => Box::new(HGroup::<RefI, NoContext>(o)), ObjUnion::GRefA(o) => Box::new(HGroup::<RefI, CArc<c_void>>(o)),
+    })
 }
 
 pub struct World {
     slots: Vec<Option<Slot>>,
-    env: Vec<Option<EnvPay>>,          // by instance id
+    be: Backend,
+    env: Vec<Option<EnvH>>,            // by instance id
     shadow: Vec<Option<*const Core>>,  // address of every payload ever created (read val/ival while live)
     ctx_keep: Vec<Option<Arc<CtxP>>>,  // the environment's reference
     ctx_weak: Vec<std::sync::Weak<CtxP>>,
     nctx: usize,
     last: Value,
     base: ledger::Snap,
+    foreign_base: (usize, usize),
     pub notes: Vec<String>,
 }
 
@@ -605,16 +668,18 @@ macro_rules! build_obj {
 }
 
 impl World {
-    pub fn new(nslots: usize, nctx: usize) -> Self {
-        payload::reset_ids();
+    pub fn new(nslots: usize, nctx: usize, be: Backend) -> Self {
+        be.reset();
         for c in CTX_DROPS.iter() {
             c.store(0, std::sync::atomic::Ordering::SeqCst);
         }
         let base = ledger::snap();
+        let foreign_base = (be.foreign_live(), be.foreign_anoms());
         let keep: Vec<Option<Arc<CtxP>>> = (0..=nctx).map(|c| if c == 0 { None } else { Some(Arc::new(CtxP { id: c })) }).collect();
         let weak = keep.iter().map(|k| k.as_ref().map(Arc::downgrade).unwrap_or_default()).collect();
         World {
             slots: (0..nslots).map(|_| None).collect(),
+            be,
             env: (0..64).map(|_| None).collect(),
             shadow: (0..64).map(|_| None).collect(),
             ctx_keep: keep,
@@ -622,6 +687,7 @@ impl World {
             nctx,
             last: json!({"kind":"init","n":0}),
             base,
+            foreign_base,
             notes: vec![],
         }
     }
@@ -646,24 +712,31 @@ impl World {
         let ret = |n: i64| json!({"kind":"ret","n":n});
         match op {
             "EnvNew" => {
-                let (pt, v) = (e["pt"].as_u64().unwrap(), e["v"].as_i64().unwrap());
-                let id = payload::next_id();
-                let p = ledger::track(|| match pt {
-                    0 => EnvPay::P0(Box::new(P0::new(id, v))),
-                    1 => EnvPay::P1(Box::new(P1::new(id, v))),
-                    2 => EnvPay::P2(Box::new(P2::new(id, v))),
-                    3 => EnvPay::P3(Box::new(P3::new(id, v))),
-                    4 => EnvPay::P4(Box::new(P4::new(id, v))),
-                    _ => EnvPay::P5(Box::new(P5::new(id, v))),
-                });
-                self.shadow[id] = Some(p.core() as *const Core);
-                self.env[id] = Some(p);
+                let (pt, v) = (e["pt"].as_u64().unwrap() as u32, e["v"].as_i64().unwrap());
+                let id = self.be.next_id();
+                match &self.be {
+                    Backend::Local => {
+                        let p = ledger::track(|| EnvPay::new(pt, id, v));
+                        self.shadow[id] = Some(p.core() as *const Core);
+                        self.env[id] = Some(EnvH::Local(p));
+                    }
+                    Backend::Plugin(f) => unsafe {
+                        let p = (f.env_new)(pt, id, v);
+                        self.shadow[id] = Some((f.env_core)(p));
+                        self.env[id] = Some(EnvH::Foreign(p));
+                    },
+                }
                 self.last = ok;
             }
             "EnvDrop" => {
                 let i = e["i"].as_u64().unwrap() as usize;
-                let p = self.env[i].take();
-                ledger::track(|| drop(p));
+                match self.env[i].take() {
+                    Some(EnvH::Local(p)) => ledger::track(|| drop(p)),
+                    Some(EnvH::Foreign(p)) => unsafe {
+                        if let Backend::Plugin(f) = &self.be { (f.env_drop)(p) }
+                    },
+                    None => {}
+                }
                 self.last = ok;
             }
             "EnvRelease" => {
@@ -674,118 +747,21 @@ impl World {
             }
             "NewOwned" => {
                 let (kind, t, tr) = (e["kind"].as_str().unwrap(), e["t"].as_str().unwrap(), e["tr"].as_str().unwrap());
-                let (pt, v, c) = (e["pt"].as_u64().unwrap(), e["v"].as_i64().unwrap(), e["c"].as_u64().unwrap() as usize);
-                let id = payload::next_id();
+                let (pt, v, c) = (e["pt"].as_u64().unwrap() as u32, e["v"].as_i64().unwrap(), e["c"].as_u64().unwrap() as usize);
+                let id = self.be.next_id();
                 let ctx = self.ctx_for(c);
-                let shadow = &mut self.shadow;
-                let obj: Box<dyn Caps> = ledger::track(|| {
-                    macro_rules! owned {
-                        ($P:ident) => {{
-                            let p = $P::new(id, v);
-                            if kind == "arcsome" {
-                                let a = CArcSome::from(p);
-                                shadow[id] = Some(&a.0 as *const Core);
-                                match ctx {
-                                    None => Box::new(HRa(trait_obj!(a as Ra))) as Box<dyn Caps>,
-                                    Some(c) => Box::new(HRa(trait_obj!((a, c) as Ra))),
-                                }
-                            } else {
-                                let b = CBox::from(p);
-                                shadow[id] = Some(&b.0 as *const Core);
-                                owned_box!($P, b)
-                            }
-                        }};
-                    }
-                    macro_rules! mk {
-                        ($w:ident, $b:expr, $tr:ident) => {
-                            match ctx {
-                                None => Box::new($w(trait_obj!($b as $tr))) as Box<dyn Caps>,
-                                Some(c) => Box::new($w(trait_obj!(($b, c) as $tr))),
-                            }
-                        };
-                    }
-                    macro_rules! mkob {
-                        ($b:expr) => {
-                            match ctx {
-                                None => Box::new(HOb(trait_obj!($b as Ob))) as Box<dyn Caps>,
-                                Some(c) => Box::new(HObArc(trait_obj!(($b, c) as Ob))),
-                            }
-                        };
-                    }
-                    macro_rules! mkg {
-                        ($b:expr) => {
-                            match ctx {
-                                None => Box::new(HGroup::<BoxI, NoContext>(group_obj!($b as G))) as Box<dyn Caps>,
-                                Some(c) => Box::new(HGroup::<BoxI, CArc<c_void>>(group_obj!(($b, c) as G))),
-                            }
-                        };
-                    }
-                    macro_rules! owned_box {
-                        (P0, $b:expr) => {
-                            match (t, tr) {
-                                ("group", _) => mkg!($b),
-                                (_, "Ra") => mk!(HRa, $b, Ra),
-                                _ => unreachable!("no such object for P0"),
-                            }
-                        };
-                        (P1, $b:expr) => {
-                            match (t, tr) {
-                                ("group", _) => mkg!($b),
-                                (_, "Ra") => mk!(HRa, $b, Ra),
-                                (_, "Rb") => mk!(HRb, $b, Rb),
-                                (_, "Ma") => mk!(HMa, $b, Ma),
-                                _ => unreachable!("no such object for P1"),
-                            }
-                        };
-                        (P2, $b:expr) => {
-                            match (t, tr) {
-                                ("group", _) => mkg!($b),
-                                (_, "Ra") => mk!(HRa, $b, Ra),
-                                (_, "Ma") => mk!(HMa, $b, Ma),
-                                (_, "Ob") => mkob!($b),
-                                (_, "Clone") => mk!(HClone, $b, Clone),
-                                _ => unreachable!("no such object for P2"),
-                            }
-                        };
-                        (P4, $b:expr) => {
-                            match (t, tr) {
-                                ("group", _) => mkg!($b),
-                                (_, "Ra") => mk!(HRa, $b, Ra),
-                                (_, "Rb") => mk!(HRb, $b, Rb),
-                                _ => unreachable!("no such object for P4"),
-                            }
-                        };
-                        (P5, $b:expr) => {
-                            match (t, tr) {
-                                ("group", _) => mkg!($b),
-                                (_, "Ra") => mk!(HRa, $b, Ra),
-                                (_, "Rb") => mk!(HRb, $b, Rb),
-                                (_, "Ma") => mk!(HMa, $b, Ma),
-                                (_, "Kid") => mk!(HKid, $b, Kid),
-                                _ => unreachable!("no such object for P5"),
-                            }
-                        };
-                        (P3, $b:expr) => {
-                            match (t, tr) {
-                                ("group", _) => mkg!($b),
-                                (_, "Ra") => mk!(HRa, $b, Ra),
-                                (_, "Rb") => mk!(HRb, $b, Rb),
-                                (_, "Ma") => mk!(HMa, $b, Ma),
-                                (_, "Ob") => mkob!($b),
-                                (_, "Kid") => mk!(HKid, $b, Kid),
-                                (_, "Clone") => mk!(HClone, $b, Clone),
-                                _ => unreachable!("no such object for P3"),
-                            }
-                        };
-                    }
-                    match pt {
-                        0 => owned!(P0),
-                        1 => owned!(P1),
-                        2 => owned!(P2),
-                        3 => owned!(P3),
-                        4 => owned!(P4),
-                        _ => owned!(P5),
-                    }
+                let (kc, tc, trc) = (ctor::kind_code(kind), if t == "group" { ctor::T_GROUP } else { ctor::T_OBJ }, ctor::tr_code(tr));
+                let made = match &self.be {
+                    Backend::Local => ledger::track(|| ctor::mk_owned(kc, tc, trc, pt, id, v, ctx)),
+                    Backend::Plugin(f) => unsafe {
+                        let has = ctx.is_some();
+                        (f.mk_owned)(kc, tc, trc, pt, id, v, has, ctx.unwrap_or_default())
+                    },
+                };
+                self.shadow[id] = Some(made.core);
+                let obj = wrap(made.obj).unwrap_or_else(|| {
+                    eprintln!("TOOL-ERROR NewOwned combination not in the family: {}", e);
+                    std::process::exit(2)
                 });
                 self.slots[x] = Some(Slot {
                     meta: Meta { kind: kind.into(), t: t.into(), tr: tr.into(), req: vec![], inst: id, ctx: c },
@@ -797,66 +773,20 @@ impl World {
                 let (kind, t, tr) = (e["kind"].as_str().unwrap(), e["t"].as_str().unwrap(), e["tr"].as_str().unwrap());
                 let (i, c) = (e["i"].as_u64().unwrap() as usize, e["c"].as_u64().unwrap() as usize);
                 let ctx = self.ctx_for(c);
-                let envp = self.env[i].as_mut().expect("borrow of a dead environment payload");
-                let obj: Box<dyn Caps> = ledger::track(|| {
-                    macro_rules! mk {
-                        ($w:ident, $r:expr, $tr:ident) => {
-                            match ctx {
-                                None => Box::new($w(trait_obj!($r as $tr))) as Box<dyn Caps>,
-                                Some(c) => Box::new($w(trait_obj!(($r, c) as $tr))),
-                            }
-                        };
-                    }
-                    macro_rules! mkg {
-                        ($I:ty, $r:expr) => {
-                            match ctx {
-                                None => Box::new(HGroup::<$I, NoContext>(group_obj!($r as G))) as Box<dyn Caps>,
-                                Some(c) => Box::new(HGroup::<$I, CArc<c_void>>(group_obj!(($r, c) as G))),
-                            }
-                        };
-                    }
-                    // lifetimes are erased through raw pointers; the specification's preconditions are
-                    // Rust's borrow rules
-                    macro_rules! rf { ($p:expr, $P:ty) => { unsafe { &*(&**$p as *const $P) } }; }
-                    macro_rules! mt { ($p:expr, $P:ty) => { unsafe { &mut *(&mut **$p as *mut $P) } }; }
-                    match (envp, kind, t, tr) {
-                        (EnvPay::P0(p), "ref", "group", _) => mkg!(RefI, rf!(p, P0)),
-                        (EnvPay::P4(p), "ref", "group", _) => mkg!(RefI, rf!(p, P4)),
-                        (EnvPay::P0(p), "mut", "group", _) => mkg!(MutI, mt!(p, P0)),
-                        (EnvPay::P1(p), "mut", "group", _) => mkg!(MutI, mt!(p, P1)),
-                        (EnvPay::P4(p), "mut", "group", _) => mkg!(MutI, mt!(p, P4)),
-                        (EnvPay::P5(p), "mut", "group", _) => mkg!(MutI, mt!(p, P5)),
-                        (EnvPay::P0(p), "ref", _, "Ra") => mk!(HRa, rf!(p, P0), Ra),
-                        (EnvPay::P1(p), "ref", _, "Ra") => mk!(HRa, rf!(p, P1), Ra),
-                        (EnvPay::P2(p), "ref", _, "Ra") => mk!(HRa, rf!(p, P2), Ra),
-                        (EnvPay::P3(p), "ref", _, "Ra") => mk!(HRa, rf!(p, P3), Ra),
-                        (EnvPay::P4(p), "ref", _, "Ra") => mk!(HRa, rf!(p, P4), Ra),
-                        (EnvPay::P5(p), "ref", _, "Ra") => mk!(HRa, rf!(p, P5), Ra),
-                        (EnvPay::P0(p), "mut", _, "Ra") => mk!(HRa, mt!(p, P0), Ra),
-                        (EnvPay::P1(p), "mut", _, "Ra") => mk!(HRa, mt!(p, P1), Ra),
-                        (EnvPay::P2(p), "mut", _, "Ra") => mk!(HRa, mt!(p, P2), Ra),
-                        (EnvPay::P3(p), "mut", _, "Ra") => mk!(HRa, mt!(p, P3), Ra),
-                        (EnvPay::P4(p), "mut", _, "Ra") => mk!(HRa, mt!(p, P4), Ra),
-                        (EnvPay::P5(p), "mut", _, "Ra") => mk!(HRa, mt!(p, P5), Ra),
-                        (EnvPay::P1(p), "ref", _, "Rb") => mk!(HRb, rf!(p, P1), Rb),
-                        (EnvPay::P3(p), "ref", _, "Rb") => mk!(HRb, rf!(p, P3), Rb),
-                        (EnvPay::P4(p), "ref", _, "Rb") => mk!(HRb, rf!(p, P4), Rb),
-                        (EnvPay::P5(p), "ref", _, "Rb") => mk!(HRb, rf!(p, P5), Rb),
-                        (EnvPay::P1(p), "mut", _, "Rb") => mk!(HRb, mt!(p, P1), Rb),
-                        (EnvPay::P3(p), "mut", _, "Rb") => mk!(HRb, mt!(p, P3), Rb),
-                        (EnvPay::P4(p), "mut", _, "Rb") => mk!(HRb, mt!(p, P4), Rb),
-                        (EnvPay::P5(p), "mut", _, "Rb") => mk!(HRb, mt!(p, P5), Rb),
-                        (EnvPay::P1(p), "mut", _, "Ma") => mk!(HMa, mt!(p, P1), Ma),
-                        (EnvPay::P2(p), "mut", _, "Ma") => mk!(HMa, mt!(p, P2), Ma),
-                        (EnvPay::P3(p), "mut", _, "Ma") => mk!(HMa, mt!(p, P3), Ma),
-                        (EnvPay::P5(p), "mut", _, "Ma") => mk!(HMa, mt!(p, P5), Ma),
-                        (EnvPay::P3(p), "mut", _, "Kid") => mk!(HKid, mt!(p, P3), Kid),
-                        (EnvPay::P5(p), "mut", _, "Kid") => mk!(HKid, mt!(p, P5), Kid),
-                        _ => {
-                            eprintln!("TOOL-ERROR NewBorrowed combination not in the family: {}", e);
-                            std::process::exit(2)
+                let (kc, tc, trc) = (ctor::kind_code(kind), if t == "group" { ctor::T_GROUP } else { ctor::T_OBJ }, ctor::tr_code(tr));
+                let u = match self.env[i].as_mut().expect("borrow of a dead environment payload") {
+                    EnvH::Local(p) => ledger::track(|| ctor::mk_borrowed(kc, tc, trc, p, ctx)),
+                    EnvH::Foreign(p) => unsafe {
+                        let has = ctx.is_some();
+                        match &self.be {
+                            Backend::Plugin(f) => (f.mk_borrowed)(kc, tc, trc, *p, has, ctx.unwrap_or_default()),
+                            _ => unreachable!(),
                         }
-                    }
+                    },
+                };
+                let obj = wrap(u).unwrap_or_else(|| {
+                    eprintln!("TOOL-ERROR NewBorrowed combination not in the family: {}", e);
+                    std::process::exit(2)
                 });
                 self.slots[x] = Some(Slot {
                     meta: Meta { kind: kind.into(), t: t.into(), tr: tr.into(), req: vec![], inst: i, ctx: c },
@@ -914,7 +844,7 @@ impl World {
             }
             "Clone" => {
                 let y = e["y"].as_u64().unwrap() as usize - 1;
-                let id = payload::next_id();
+                let id = self.be.next_id();
                 let s = self.slots[x].as_ref().unwrap();
                 let o = ledger::track(|| s.obj.clone_h()).expect("clone not available");
                 let meta = Meta { kind: s.meta.kind.clone(), t: s.meta.t.clone(), tr: s.meta.tr.clone(), req: s.meta.req.clone(), inst: id, ctx: s.meta.ctx };
@@ -923,7 +853,7 @@ impl World {
             }
             "KidOwned" => {
                 let y = e["y"].as_u64().unwrap() as usize - 1;
-                let id = payload::next_id();
+                let id = self.be.next_id();
                 let s = self.slots[x].as_ref().unwrap();
                 let o = ledger::track(|| s.obj.kid_owned()).expect("kid_owned not available");
                 let meta = Meta { kind: "box".into(), t: "obj".into(), tr: "Ra".into(), req: vec![], inst: id, ctx: s.meta.ctx };
@@ -945,7 +875,7 @@ impl World {
                     self.last = ret(r);
                 } else {
                     let y = e["y"].as_u64().unwrap() as usize - 1;
-                    let id = payload::next_id();
+                    let id = self.be.next_id();
                     let o = ledger::track(|| obj.into_child()).unwrap_or_else(|_| panic!("ob_into not available"));
                     let meta2 = Meta { kind: "box".into(), t: "obj".into(), tr: "Ra".into(), req: vec![], inst: id, ctx: meta.ctx };
                     self.slots[y] = Some(Slot { meta: meta2, obj: o });
@@ -967,17 +897,17 @@ impl World {
     /// registers of payload `i`, read from its memory while it is live (never after its drop)
     fn regs(&self, i: usize) -> (i64, i64) {
         match self.shadow[i] {
-            Some(p) if payload::drops(i) == 0 => unsafe { ((*p).val, (*p).inner.val) },
+            Some(p) if self.be.drops(i) == 0 => unsafe { ((*p).val, (*p).inner.val) },
             _ => (-1, -1),
         }
     }
 
     pub fn proj(&mut self) -> Value {
         // learn the addresses of payloads created inside the library from the objects that own them
-        let n = payload::next_id();
+        let n = self.be.next_id();
         let pay: Vec<Value> = (1..n)
             .map(|i| {
-                let d = payload::drops(i);
+                let d = self.be.drops(i);
                 let st = if d == 0 { "live" } else { "dropped" };
                 let (v, iv) = self.regs(i);
                 json!([st, v, iv, d])
@@ -1065,7 +995,7 @@ impl World {
                 return ("bad:ctx", format!("context {} destructor ran {} times, expected {}", c + 1, crel_real, crel_ideal));
             }
         }
-        if payload::use_after_drop() > 0 {
+        if self.be.uad() > 0 {
             return ("bad:drop", "a call reached a destroyed payload".into());
         }
         if known { ("known:F2", String::new()) } else { ("ok", String::new()) }
@@ -1079,10 +1009,15 @@ impl World {
             }
         }
         for p in self.env.iter_mut() {
-            let p = p.take();
-            ledger::track(|| drop(p));
+            match p.take() {
+                Some(EnvH::Local(p)) => ledger::track(|| drop(p)),
+                Some(EnvH::Foreign(p)) => unsafe {
+                    if let Backend::Plugin(f) = &self.be { (f.env_drop)(p) }
+                },
+                None => {}
+            }
         }
-        for (id, d) in payload::drop_table() {
+        for (id, d) in self.be.drop_table() {
             if d != 1 {
                 return ("bad:drop", format!("payload {} dropped {} times once every object is gone", id, d));
             }
@@ -1108,8 +1043,16 @@ impl World {
         if !known && s.live != self.base.live {
             return ("bad:drop", format!("leak: {} blocks still allocated after every object and context is gone", s.live as i64 - self.base.live as i64));
         }
-        if payload::use_after_drop() > 0 {
+        if self.be.uad() > 0 {
             return ("bad:drop", "a call reached a destroyed payload".into());
+        }
+        // memory owned by plugin-created values must have been released by the plugin's allocator
+        if !known && self.be.foreign_live() != self.foreign_base.0 {
+            return ("bad:drop", format!("plugin-side leak: {} blocks still allocated in the plugin after every object is gone",
+                                        self.be.foreign_live() as i64 - self.foreign_base.0 as i64));
+        }
+        if self.be.foreign_anoms() != self.foreign_base.1 {
+            return ("bad:drop", "the plugin's allocator was handed memory it did not allocate (or a wrong layout)".into());
         }
         if known { ("known:F2", String::new()) } else { ("ok", String::new()) }
     }
@@ -1119,14 +1062,14 @@ fn join_req(v: &Value) -> String {
     v.as_array().unwrap().iter().map(|s| s.as_str().unwrap()).collect::<Vec<_>>().join("+")
 }
 
-fn replay(lines: &[String], nslots: usize, nctx: usize) -> (usize, Vec<Value>, usize) {
+fn replay(lines: &[String], nslots: usize, nctx: usize, plugin: &Option<String>) -> (usize, Vec<Value>, usize) {
     let mut failures = vec![];
     let mut steps = 0;
     let mut known = 0;
     for (bi, line) in lines.iter().enumerate() {
         vkit::mark(bi);
         let beh: Value = serde_json::from_str(line).expect("behaviour json");
-        let mut w = World::new(nslots, nctx);
+        let mut w = World::new(nslots, nctx, mk_backend(plugin));
         let mut failed = None;
         let mut beh_known = false;
         let mut leaked: Vec<i64> = vec![0; nctx];
@@ -1171,14 +1114,21 @@ fn replay(lines: &[String], nslots: usize, nctx: usize) -> (usize, Vec<Value>, u
 /// (never the generator's expectation).  Behaviours that exercise a wrapped borrowed child on an
 /// object with a context go to a second file (`<out>.kid`): they are the ones the listed finding
 /// F2 can affect, and are judged separately.
-fn trace(lines: &[String], out: &str, nslots: usize, nctx: usize) {
+fn mk_backend(plugin: &Option<String>) -> Backend {
+    match plugin {
+        None => Backend::Local,
+        Some(p) => Backend::Plugin(PluginFns::load(p)),
+    }
+}
+
+fn trace(lines: &[String], out: &str, nslots: usize, nctx: usize, plugin: &Option<String>) {
     let mut main_log = vkit::NdJson::create(out);
     let mut kid_log = vkit::NdJson::create(&format!("{}.kid", out));
     for line in lines {
         let beh: Value = serde_json::from_str(line).expect("behaviour json");
         let touches_kid = beh.as_array().unwrap().iter().any(|st| st["a"]["op"] == "KidBorrowed");
         let log = if touches_kid { &mut kid_log } else { &mut main_log };
-        let mut w = World::new(nslots, nctx);
+        let mut w = World::new(nslots, nctx, mk_backend(plugin));
         log.emit(&json!({"op":"reset"}));
         for st in beh.as_array().unwrap() {
             let a = &st["a"];
@@ -1224,16 +1174,18 @@ pub fn main(args: &[String]) {
     let path = args.get(1).cloned().unwrap_or_default();
     let geti = |f: &str, d: usize| vkit::arg_after(args, f).map(|s| s.parse().unwrap()).unwrap_or(d);
     let (nslots, nctx) = (geti("--slots", 3), geti("--ctx", 1));
+    let plugin = vkit::arg_after(args, "--plugin");
     match mode {
         "replay" => {
             let lines = vkit::read_lines(&path);
-            let (steps, failures, known) = replay(&lines, nslots, nctx);
-            vkit::summary("obj-replay", lines.len(), steps, &failures, json!({"known_F2": known}));
+            let (steps, failures, known) = replay(&lines, nslots, nctx, &plugin);
+            let info = plugin.as_ref().map(|p| PluginFns::load(p).build_info).unwrap_or_default();
+            vkit::summary("obj-replay", lines.len(), steps, &failures, json!({"known_F2": known, "plugin": info}));
         }
         "trace" => {
             let lines = vkit::read_lines(&path);
             let out = args.get(2).cloned().unwrap();
-            trace(&lines, &out, nslots, nctx);
+            trace(&lines, &out, nslots, nctx, &plugin);
         }
         _ => {
             eprintln!("TOOL-ERROR mode");
